@@ -28,8 +28,13 @@ _SMALL3 = [0.0, 1.0, 2.0]
 _POS = [0.0, 1.0, 2.0, 3.0, 5.0, 0.5, 0.25, 8.0, 1.5, 10.0, 100.0, 0.125,
         7.0, 4.0, 6.0, 12.0, 1024.0, 9.0, 42.0, 2.75]
 
+# non-negative with subnormal and very small magnitudes (totals whose
+# reciprocal or square leaves the float range)
+_TINY = [0.0, 5e-324, 1e-320, 3e-310, 1e-300, 2.5e-200, 1.0, 1e-7, 0.5,
+         1e-320, 4e-323, 2.0, 1e-160, 7e-309, 3.0, 1e-320, 0.0, 1e-100,
+         2e-308, 1e-5]
 VALUE_FAMILIES = {'exact': _EXACT, 'wild': _WILD, 'counts': _COUNTS,
-                  'small3': _SMALL3, 'pos': _POS}
+                  'small3': _SMALL3, 'pos': _POS, 'tiny': _TINY}
 
 
 def value(family, vid):
@@ -127,8 +132,15 @@ MD_CATS = [('barcode', 'text'), ('depth', 'int'), ('ph', 'float'),
            ('note', 'text'), ('Taxonomy', 'list'),
            # JSON-only kinds (C02: nested lists, null, numpy scalars)
            ('np_count', 'npint'), ('np_frac', 'npfloat'),
-           ('nested', 'nested'), ('maybe', 'null')]
+           ('nested', 'nested'), ('maybe', 'null'),
+           # plain text categories whose names are case variants of the
+           # reserved hierarchical names
+           ('TAXONOMY', 'text'), ('Collapsed_IDs', 'text'),
+           # hierarchical list with an unnamed (blank) interior rank: text
+           # formats only (HDF5 pads lists with blanks)
+           ('lineage', 'elist')]
 N_BASIC_CATS = 10
+BASIC_CATS = list(range(N_BASIC_CATS)) + [14, 15]
 _TEXTS = ['AATT', 'gut', 'soil', 'x y', 'a;b', 'k__Bacteria', 'p__Firmicutes',
           'c__Bacilli', 'o__Lacto', 'café', 'a/b', 'q', 'zz top', 'n-a',
           'B|C', 'water', 'skin', 'β', 'l33t', 'Z']
@@ -162,6 +174,12 @@ def md_value(kind, salt, idtext, cat, ctrl=False):
                 []]
     if kind == 'null':
         return None if h % 2 else _TEXTS[h % len(_TEXTS)]
+    if kind == 'elist':
+        n = 3 + h % 2
+        out = [_TEXTS[(h >> (4 * i)) % len(_TEXTS)] for i in range(n)]
+        if h % 3:
+            out[1 + (h >> 5) % (n - 2)] = ''
+        return out
     if kind == 'list':
         n = 1 + h % 3
         return [_TEXTS[(h >> (4 * i)) % len(_TEXTS)] for i in range(n)]
